@@ -678,6 +678,32 @@ func checkMemoryFileTypestate(c *Ctx, r *Report, pkg string) {
 					ok = true
 				}
 			})
+			// or through a helper of the package that performs the store on every path
+			for _, cs := range callsIn(fn) {
+				sf := cs.Instr.Common().StaticCallee()
+				if sf == nil || sf.Pkg != fn.Pkg || !precedes(cs.Instr, in) {
+					continue
+				}
+				instrsOf(sf, func(in2 ssa.Instruction) {
+					st, isSt := in2.(*ssa.Store)
+					if !isSt || !isNilConst(st.Val) {
+						return
+					}
+					ld, isLd := st.Addr.(*ssa.UnOp)
+					if !isLd || !isFieldRef(ld.X, tBlob+".data") {
+						return
+					}
+					always := true
+					for _, ret := range returnsOf(sf) {
+						if !(st.Block() == ret.Block() || st.Block().Dominates(ret.Block())) {
+							always = false
+						}
+					}
+					if always {
+						ok = true
+					}
+				})
+			}
 			r.Check(ok, r8, fn, "delete(blobs) after nil-ing data", in, "data slice cleared first", "a blob is removed from the memory store without clearing its data slice: handles opened earlier keep serving stale bytes instead of the evicted error")
 		})
 	}
